@@ -604,9 +604,13 @@ iwrc _jbl_write_json_string(const char *str, int len, jbl_json_printer pt, void 
     if ((ch == '"') || (ch == '\\')) {
       PT(0, 0, '\\', 1);
       PT(0, 0, ch, 1);
-    } else if ((ch >= '\b') && (ch <= '\r')) {
+    } else if ((ch >= '\b') && (ch <= '\r') && (ch != '\v')) {
       PT(0, 0, '\\', 1);
       PT(0, 0, specials[ch - '\b'], 1);
+    } else if (ch < 0x20) { // JSON has no short escape for the other control characters
+      char sbuf[7];
+      snprintf(sbuf, 7, "\\u%04X", ch);
+      PT(sbuf, 6, 0, 0);
     } else if (isprint(ch)) {
       PT(0, 0, ch, 1);
     } else if (pf & JBL_PRINT_CODEPOINTS) {
